@@ -61,6 +61,23 @@ theorem copy_same_shape (inh : Option Bool) (next : Nat) (t c : Node) (n' : Nat)
   obtain ⟨rfl, rfl⟩ := copyImpl_some h
   exact ⟨shape_copySpec t inh none next hs (fun _ => rfl), shape_copySpec t inh inh next hs (fun h => h)⟩
 
+/-- **A copy renders identically** — under `decode` with any formatter, `prettify`, `get_text`, …: every observation that
+    reads the tree through its shape gives the same result on the copy (as a root) and on the original (in its context) -/
+theorem copy_renders_identically {α : Type} (observe : Shape → α) (inh : Option Bool) (next : Nat) (t c : Node) (n' : Nat)
+    (hs : SettledN t) (h : copyImpl inh next t = some (c, n')) : observe (shape none c) = observe (shape inh t) := by
+  rw [(copy_same_shape inh next t c n' hs h).1]
+
+/-- `tag.copy_self()` on its own (the public first step): the clone has no contents and the data `copySelf` gives it; the
+    full copy has the same root data -/
+theorem copy_root_is_copy_self (inh : Option Bool) (next i : Nat) (d : TagData) (ks : List Node) :
+    ∃ ks', (copySpec inh next (.tag i d ks)).1 = .tag next (copySelf next d (isXml inh d)).2.1 ks' ∧ ks'.length = ks.length := by
+  refine ⟨(copySpecL (isXml inh d) (copySelf next d (isXml inh d)).2.2 ks).1, by simp [copySpec, copySelf], ?_⟩
+  generalize (copySelf next d (isXml inh d)).2.2 = n
+  generalize isXml inh d = x
+  induction ks generalizing n with
+  | nil => simp [copySpecL]
+  | cons k r ih => simp [copySpecL, ih]
+
 /-- for a `BeautifulSoup`, provided the object still has the data its builder gives a new one (`fresh`): the root data of
     the copy comes from the builder, not from the original -/
 theorem copy_soup_same_shape (fresh : TagData) (inh : Option Bool) (next i : Nat) (d : TagData) (ks : List Node) (c : Node) (n' : Nat)
@@ -256,6 +273,28 @@ theorem copy_independent (inh : Option Bool) (next : Nat) (t c : Node) (n' : Nat
     have := hw _ ht
     have := (hf _ hc).1
     omega
+
+/-- … and the same for any **history** of mutations (`.string = …`, `smooth()`, `wrap`, `unwrap`, `insert_before`, `extend`
+    … are sequences of the primitive ones on objects of the edited tree or on new objects): as long as no mutated object
+    belongs to `t`, `t` is unchanged -/
+theorem edits_frame (es : List Edit) (t : Node) (h : ∀ e ∈ es, e.target ∉ ids t) : applyEdits es t = t := by
+  induction es with
+  | nil => rfl
+  | cons e r ih =>
+    simp only [applyEdits]
+    rw [edit_frame e t (h e (List.mem_cons_self ..))]
+    exact ih (fun x hx => h x (List.mem_cons_of_mem _ hx))
+
+/-- independence under whole edit histories of the copy: every mutated object is one of the copy or was created after the
+    copy was made (identity ≥ `next`) — the original does not change -/
+theorem copy_independent_history (inh : Option Bool) (next : Nat) (t c : Node) (n' : Nat)
+    (_h : copyImpl inh next t = some (c, n')) (hw : ∀ x ∈ ids t, x < next) (es : List Edit) (hes : ∀ e ∈ es, next ≤ e.target) :
+    applyEdits es t = t := by
+  apply edits_frame
+  intro e he ht
+  have := hw _ ht
+  have := hes e he
+  omega
 
 /-- the lemma has content: a clone that kept the original's value list (a *shallow* copy of `attrs`) is changed by
     `original["class"].append("z")` … -/
